@@ -21,7 +21,7 @@ const PIECES: [&str; 22] = [
 ];
 const N_VALID: usize = 17;
 
-const IPIECES: [&str; 10] = ["a", "{", "}", "\\$", "\\\"", "é", "€", "😀", "\\n", " "];
+const IPIECES: [&str; 14] = ["a", "{", "}", "\\$", "\\\"", "é", "€", "😀", "\\n", " ", "\\x41", "\\\\", "\\r", "\n"];
 const SLOTS: [&str; 18] = [
     "x", "\"s\"", "f(\"(\")", "o.k", "xs[0]", "{\"k\": \"v\"}.k", "$\"${x}\"", "x + \"é\"", "\"€\"", "f(\"{}\")",
     "$\"${o.k}\"", "\"\\$\" + x", "f(\"\\\"\")", "$\"<${xs[0]}>\"", "fi(x)",
@@ -94,6 +94,30 @@ fn fixed_cases() -> Vec<Case> {
                 out.push(Case::new(format!("s := \"{}\"\na := {}\nb := {}\nt := s[a:b]\nprint(\"sliced\")\nprint((s[:a] + t + s[b:]) == s)\n", s, a, b), T_FIXED, format!("range {}:{} of {:?}", a, b, s)));
             }
             out.push(Case::new(format!("s := \"{}\"\na := {}\nt := s[a:]\nprint(\"tail\")\nu := s[:a]\nprint((u + t) == s)\n", s, a), T_FIXED, format!("open ranges at {} of {:?}", a, s)));
+        }
+    }
+    // an interpolated literal in every syntactic position a string can take (names of properties,
+    // indices, patterns, operands, arguments, iterables), evaluated again after its variable changed
+    for lit in ["$\"k${x}\"", "$\"${x}\"", "$\"é${x}€\""] {
+        for ctxt in [
+            "print(@)\n",
+            "r := [@][0]\nprint(r)\n",
+            "r := {\"p\": @}.p\nprint(r)\n",
+            "o := {@: 1}\nprint(o)\n",
+            "o := {@: 1, \"z\": 2}\nx = \"Y\"\no2 := {@: 3, o..}\nprint(o2)\n",
+            "o := {}\no[@] = 1\nx = \"Y\"\no[@] = 2\nprint(o)\n",
+            "o := {}\no[@] = 1\nprint(o[@])\nx = \"Y\"\no[@] = 2\no[@] += 5\nprint(o)\n",
+            "o := {}\no[@] = 1\n{@: v} := o\nprint(v)\nx = \"Y\"\no[@] = 2\n{@: w} = o\nprint(w)\n",
+            "fn f(a) {\nreturn a\n}\nprint(f(@))\n",
+            "print(@ == (\"k\" + x))\nprint(@ + @)\nprint(@->len())\n",
+            "print((@)[0] == \"k\")\nprint((@)[1:]->len())\n",
+            "n := 0\nfor c in @ {\nn += 1\n}\nprint(n)\n",
+            "fn g() {\nreturn @\n}\nprint(g())\nx = \"Y\"\nprint(g())\n",
+            "print($\"<${@}>\")\n",
+            "xs := [@, @]\nx = \"Y\"\nxs += [@]\nprint(xs)\n",
+            "o := {\"kX\": 1, \"X\": 2, \"éX€\": 3}\nprint(o[@])\n",
+        ] {
+            out.push(Case::new(format!("x := \"X\"\n{}", ctxt.replace('@', lit)), T_FIXED, format!("interpolated literal {} in {:?}", lit, ctxt.replace('\n', " "))));
         }
     }
     // text inside a slot is lexed when the slot is evaluated: every lexical error kind there is a
